@@ -579,3 +579,56 @@ def deepcopy_shared_memo(ctx, funcs: Iterable[FunctionInfo]) -> List[Tuple[Funct
                 out.append((f, c, f"`{ast.unparse(c)[:70]}` runs in the loop `{norm(inner)[:40]}` with the memo `{memo.id}` created outside it: an object "
                                   f"that two iterations' sources have in common is copied once and shared by both results"))
     return out
+
+
+_ROUNDERS = ("round", "rint", "floor", "ceil", "around", "trunc", "fix")
+# sites on the pinned tree that were read and are not part of any property's mechanism (one line of reason each)
+TRUNCATION_TRIAGED = {
+    ("pyrates/utility.py", "tmin = int(tmin / dt)"): "first row shown by an interactive plotting helper; no simulation or code generation depends on it",
+}
+
+
+def _has_true_division(e) -> bool:
+    """a true division that takes part in the arithmetic of e (through + - * ** and unary signs), not hidden inside a call"""
+    if isinstance(e, ast.BinOp):
+        if isinstance(e.op, ast.Div):
+            return True
+        if isinstance(e.op, (ast.Add, ast.Sub, ast.Mult, ast.Pow)):
+            return _has_true_division(e.left) or _has_true_division(e.right)
+    if isinstance(e, ast.UnaryOp):
+        return _has_true_division(e.operand)
+    return False
+
+
+def truncated_quotient(ctx, funcs: Iterable[FunctionInfo]) -> List[Tuple[FunctionInfo, ast.AST, str]]:
+    """`int(a / b)` / `(a / b).astype(int)` / `np.int64(a / b)`: a float quotient cut to an integer by TRUNCATION.  Quotients of decimal
+    literals routinely land one ulp below the integer they stand for (0.7 / 1e-3 = 699.9999999999999, 0.3 / 0.1 = 2.9999999999999996),
+    so the count / index comes out one too small exactly for such inputs, while `round` / `np.round` / `np.rint` give the intended
+    integer and an explicit `floor` / `ceil` / `//` states a deliberate choice.  Reported when no rounding function is applied
+    between the division and the conversion."""
+    out = []
+    for f in funcs:
+        for c in walk_shallow(f.node):
+            if not isinstance(c, ast.Call):
+                continue
+            arg = None
+            cn = call_name(c)
+            if isinstance(c.func, ast.Name) and cn == "int" and len(c.args) == 1:
+                arg = c.args[0]
+            elif isinstance(c.func, ast.Attribute) and cn in ("int32", "int64", "int_", "intp") and len(c.args) == 1:
+                arg = c.args[0]
+            elif isinstance(c.func, ast.Attribute) and cn == "astype" and c.args and (
+                    (isinstance(c.args[0], ast.Name) and c.args[0].id == "int")
+                    or (isinstance(c.args[0], ast.Attribute) and c.args[0].attr.startswith("int"))
+                    or (isinstance(c.args[0], ast.Constant) and isinstance(c.args[0].value, str) and c.args[0].value.startswith("int"))):
+                arg = c.func.value
+            if arg is None or not _has_true_division(arg):
+                continue
+            st = c
+            while parent(st) is not None and not isinstance(st, ast.stmt):
+                st = parent(st)
+            if (f.module.rel, norm(st)) in TRUNCATION_TRIAGED:
+                continue
+            out.append((f, c, f"`{ast.unparse(c)[:60]}` truncates a float quotient: when the quotient of two decimal values lands one ulp below an "
+                              f"integer (0.7/1e-3, 0.3/0.1) the result is one too small; round first (`int(np.round(..))`) or state the floor explicitly"))
+    return out
